@@ -286,10 +286,11 @@ type overlayGen struct {
 	imports map[string]string // alias -> path
 	qual    types.Qualifier
 	fset    *token.FileSet
+	eng     *Engine
 }
 
 func (eng *Engine) genOverlay(p *packages.Package, cf *ContractFile, fset *token.FileSet) ([]byte, error) {
-	g := &overlayGen{p: p, imports: map[string]string{}, fset: fset}
+	g := &overlayGen{p: p, imports: map[string]string{}, fset: fset, eng: eng}
 	// candidate imports: everything the package imports, plus explicit ones
 	cand := map[string]string{}
 	for _, imp := range p.Types.Imports() {
@@ -368,7 +369,7 @@ func (eng *Engine) genOverlay(p *packages.Package, cf *ContractFile, fset *token
 			}
 			cl.Params = params
 			txt := cl.Go
-			if len(fi.rtypes) >= 1 {
+			if len(fi.rtypes) >= 1 && withResults {
 				txt = replaceWord(txt, "result", "result0")
 			}
 			fmt.Fprintf(body, "// %s %s line %d: %s\nfunc %s(%s) bool { return %s }\n\n", fs.Name, kind, cl.Line, strings.ReplaceAll(cl.Text, "\n", " "), cl.WrapperName, decl, txt)
@@ -455,7 +456,9 @@ func (eng *Engine) genOverlay(p *packages.Package, cf *ContractFile, fset *token
 						return true
 					})
 					if a.Ordinal < 1 || a.Ordinal > len(rets) {
-						return nil, fmt.Errorf("%s:%d: %s has %d return statements, contract names return %d", cf.Path, a.Clause.Line, fs.Name, len(rets), a.Ordinal)
+						g.eng.drift = append(g.eng.drift, fmt.Sprintf("%s:%d: %s has %d return statements, contract names return %d (clause %s dropped)", cf.Path, a.Clause.Line, fs.Name, len(rets), a.Ordinal, a.Clause.Label))
+						a.Dead = true
+						continue
 					}
 					pos := rets[a.Ordinal-1].Pos()
 					pp := fset.Position(pos)
@@ -467,7 +470,9 @@ func (eng *Engine) genOverlay(p *packages.Package, cf *ContractFile, fset *token
 				}
 				calls := collectCalls(fi.decl, a.Callee)
 				if a.Ordinal < 1 || a.Ordinal > len(calls) {
-					return nil, fmt.Errorf("%s:%d: %s has %d calls of %s, contract names call %d", cf.Path, a.Clause.Line, fs.Name, len(calls), a.Callee, a.Ordinal)
+					g.eng.drift = append(g.eng.drift, fmt.Sprintf("%s:%d: %s has %d calls of %s, contract names call %d (clause %s dropped)", cf.Path, a.Clause.Line, fs.Name, len(calls), a.Callee, a.Ordinal, a.Clause.Label))
+					a.Dead = true
+					continue
 				}
 				pos := calls[a.Ordinal-1].Pos()
 				a.Clause.Pos = pos
@@ -485,7 +490,9 @@ func (eng *Engine) genOverlay(p *packages.Package, cf *ContractFile, fset *token
 						return true
 					})
 					if a.SinceOrdinal < 1 || a.SinceOrdinal > len(ifs) {
-						return nil, fmt.Errorf("%s:%d: %s has %d if statements, contract names if %d", cf.Path, a.Clause.Line, fs.Name, len(ifs), a.SinceOrdinal)
+						g.eng.drift = append(g.eng.drift, fmt.Sprintf("%s:%d: %s has %d if statements, contract names if %d (clause %s dropped)", cf.Path, a.Clause.Line, fs.Name, len(ifs), a.SinceOrdinal, a.Clause.Label))
+						a.Dead = true
+						continue
 					}
 					cond := ifs[a.SinceOrdinal-1].Cond
 					sp, ep := fset.Position(cond.Pos()), fset.Position(cond.End())
@@ -493,7 +500,9 @@ func (eng *Engine) genOverlay(p *packages.Package, cf *ContractFile, fset *token
 				} else if a.SinceCallee != "" {
 					sc := collectCalls(fi.decl, a.SinceCallee)
 					if a.SinceOrdinal < 1 || a.SinceOrdinal > len(sc) {
-						return nil, fmt.Errorf("%s:%d: %s has %d calls of %s, contract names call %d", cf.Path, a.Clause.Line, fs.Name, len(sc), a.SinceCallee, a.SinceOrdinal)
+						g.eng.drift = append(g.eng.drift, fmt.Sprintf("%s:%d: %s has %d calls of %s, contract names call %d (clause %s dropped)", cf.Path, a.Clause.Line, fs.Name, len(sc), a.SinceCallee, a.SinceOrdinal, a.Clause.Label))
+						a.Dead = true
+						continue
 					}
 					sp := fset.Position(sc[a.SinceOrdinal-1].Lparen)
 					a.SinceFile, a.SinceOff = sp.Filename, sp.Offset
@@ -597,7 +606,8 @@ func usedPackageIdents(src string) map[string]bool {
 // clauseParams determines the wrapper parameter list for a clause expression.
 func (g *overlayGen) clauseParams(fi *funcInfo, goExpr string, withResults bool, pos token.Pos) ([]ClauseParam, string, error) {
 	src := goExpr
-	if len(fi.rtypes) >= 1 {
+	if len(fi.rtypes) >= 1 && withResults {
+		// outside ensures "result" is an ordinary identifier (a local of that name, if the function has one)
 		src = replaceWord(src, "result", "result0")
 	}
 	expr, err := parser.ParseExpr(src)
@@ -779,8 +789,11 @@ func collectCalls(fd *ast.FuncDecl, callee string) []*ast.CallExpr {
 			case *ast.SelectorExpr:
 				name = f.Sel.Name
 			}
-			if name == callee {
-				out = append(out, ce)
+			for _, alt := range strings.Split(callee, "|") {
+				if name == alt {
+					out = append(out, ce)
+					break
+				}
 			}
 		}
 		return true
@@ -852,6 +865,9 @@ func (eng *Engine) resolveSpecs() error {
 				}
 			}
 			for i := range fs.Asserts {
+				if fs.Asserts[i].Dead {
+					continue
+				}
 				if err := res(&fs.Asserts[i].Clause); err != nil {
 					return err
 				}
